@@ -26,6 +26,13 @@ UNIVERSES = {
     "two-roots": ["a", "a.b", "ab", "ab.b", "b"],
     "deep-prefix": ["s", "s.t", "s.t.u", "s.t.uv", "s.tu", "s.t.u.w"],
 }
+# architectures whose module list does not spell out every parent package (parents are implied by the
+# hierarchy), optionally level-limited, optionally with external modules that only appear through imports
+IMPLICIT = {
+    "implicit-parents": {"listed": ["pkg.a.x", "pkg.ab", "pkg.a.y.z"], "edges": [], "level_limit": None},
+    "level-limited": {"listed": ["r", "r.m", "r.m.n", "r.m.n.o", "r.mn"], "edges": [("r.m.n.o", "r.mn")], "level_limit": 2},
+    "externals": {"listed": ["app", "app.core", "app.web"], "edges": [("app.web", "os.path"), ("app.core", "app.web")], "level_limit": None, "extra": ["os", "os.path"]},
+}
 ALIASES = ["A", "", "x.y", "a+", "(", "pkg", ".", "Zz"]
 MISSING = {"prefix-siblings": "pkg.abc", "nested": "r.m.", "two-roots": "a.", "deep-prefix": "s.t.u.v"}
 AX = ("AX-OBJECT",)
@@ -83,9 +90,22 @@ def observe(ev, nodes, kw: dict):
     return ("OK", "drawn")
 
 
+def arch_of(u: str):
+    """(evaluable, node list) of a universe."""
+    if u in UNIVERSES:
+        return real_architecture(UNIVERSES[u], []), list(UNIVERSES[u])
+    spec = IMPLICIT[u]
+    ev = real_architecture(spec["listed"] + spec.get("extra", []), spec["edges"], level_limit=spec["level_limit"])
+    return ev, sorted(ev.modules)
+
+
+def nodes_of(u: str) -> list:
+    return arch_of(u)[1]
+
+
 def kw_of(u: str, sel) -> dict:
     """sel(key) -> 0/1 : the keyword arguments of one visualize call."""
-    nodes = UNIVERSES[u]
+    nodes = nodes_of(u)
     kw: dict = {}
     if sel(("opt", "aliases")):
         al = {}
@@ -93,7 +113,7 @@ def kw_of(u: str, sel) -> dict:
             if sel(("alias", n)):
                 al[n] = ALIASES[i % len(ALIASES)]
         if sel(("alias", "<missing>")):
-            al[MISSING[u]] = "M"
+            al[MISSING.get(u, nodes[-1] + ".nope")] = "M"
         kw["aliases"] = al
     if sel(("opt", "spacing")):
         kw["spacing"] = 0.37
@@ -105,13 +125,13 @@ def kw_of(u: str, sel) -> dict:
 
 
 def keys_of(u: str) -> list:
-    nodes = UNIVERSES[u]
+    nodes = nodes_of(u)
     return [(("opt", o), 2) for o in ("aliases", "spacing", "node_size", "ax")] + [(("alias", n), 2) for n in nodes] + [(("alias", "<missing>"), 2)]
 
 
 def instances(tier: str) -> list[dict]:
     out = [{"part": "kernel", "name": k, "tier": tier} for k in kernel_names("vf.kernels.k17")]
-    us = ["prefix-siblings", "nested"] if tier == "quick" else list(UNIVERSES)
+    us = (["prefix-siblings", "nested"] if tier == "quick" else list(UNIVERSES)) + list(IMPLICIT)
     out += [{"part": "visualize", "universe": u} for u in us]
     return out
 
@@ -126,8 +146,7 @@ def work(inst: dict) -> dict:
         res["label"] = label_of(inst)
         return res
     u = inst["universe"]
-    nodes = UNIVERSES[u]
-    ev = real_architecture(nodes, [])
+    ev, nodes = arch_of(u)
 
     def fn():
         return observe(ev, nodes, kw_of(u, lambda k: ENGINE.branch(k)))
@@ -141,10 +160,10 @@ def work(inst: dict) -> dict:
 def replay_detail(payload: dict):
     if payload["kind"] == "kernel":
         return replay_kernel(payload)
-    nodes = payload["nodes"]
+    ev, nodes = arch_of(payload["universe"])
     assign = {tuple(k): v for k, v in payload["assign"]}
     kw = kw_of(payload["universe"], lambda k: assign.get(k, 0))
-    o = observe(real_architecture(nodes, []), nodes, kw)
+    o = observe(ev, nodes, kw)
     ok = o[0] == "OK"
     shown = {k: (v if k != "ax" else "<object>") for k, v in kw.items()}
     text = f"visualize(**{shown}) on modules {nodes}: " + ("as specified" if ok else f"expected {o[1]}, drawing backend got {o[2]}")
@@ -164,6 +183,7 @@ def run(tier: str, only: str | None = None) -> int:
     rep.bounds = {
         "kernels": "module name <= 5 chars, aliased names <= 4 chars, well-formed dotted names over {a,b,.}; alias strings <= 2 (one alias) / <= 1 (two aliases) arbitrary characters",
         "universes": {u: UNIVERSES[u] for u in UNIVERSES},
+        "implicit_universes": IMPLICIT,
         "alias_strings": ALIASES,
         "options": ["aliases present/absent", "alias per module (one bit each)", "alias for a missing module", "spacing", "node_size", "ax"],
     }
